@@ -26,6 +26,7 @@ class Seg:
        gelu / ngelu / silu / tanh / relu / mul / neg / ln / fln / sm / nsm / drop / mm
        add_in / add_in_r / add_sc / iadd_in      plain adds: x + y, y + x, x + 1.5, x += y   (y: fresh input of x's shape)
        res(f...) / res_r(f...)  residual block x + f(x) / f(x) + x with f a list of width-preserving segment kinds
+       res2(fa...|fb...)        residual block x + fa(x) * fb(x): the skip tensor has two consumers inside the branch
        attn                     self-attention block: softmax-free F.scaled_dot_product_attention(x, x, x)
     """
 
@@ -126,6 +127,12 @@ class Prog(nn.Module):
         if kind in ("res", "res_r"):
             sub = [self._mk(b, 100 + i * 10 + j) for j, b in enumerate(branch)]
             return (kind, sub)
+        if kind == "res2":
+            # residual block whose skip tensor has TWO consumers inside the branch: x + fa(x) * fb(x)  ("|" separates fa from fb)
+            cut = list(branch).index("|")
+            sa = [self._mk(b, 300 + i * 20 + j) for j, b in enumerate(branch[:cut])]
+            sb = [self._mk(b, 300 + i * 20 + 10 + j) for j, b in enumerate(branch[cut + 1:])]
+            return ("res2", sa, sb)
         if kind == "par":
             # two independent residual streams a0 + fA(a0), b0 + fB(b0) (a0, b0 = separate projections of x), merged by a product
             half = len(branch) // 2
@@ -162,6 +169,8 @@ class Prog(nn.Module):
                 out.extend(it[1])
             if it[0] == "par":
                 out.extend(it[3] + it[4])
+            if it[0] == "res2":
+                out.extend(it[1] + it[2])
         return out
 
     def _apply(self, item: Any, x: torch.Tensor, extra: Dict[str, torch.Tensor]) -> torch.Tensor:
@@ -242,6 +251,13 @@ class Prog(nn.Module):
             for sub in item[1]:
                 r = self._apply(sub, r, extra)
             return x + r if k == "res" else r + x
+        if k == "res2":
+            ra, rb = x, x
+            for sub in item[1]:
+                ra = self._apply(sub, ra, extra)
+            for sub in item[2]:
+                rb = self._apply(sub, rb, extra)
+            return x + ra * rb
         if k == "par":
             a0, b0 = self.mods[item[1]](x), self.mods[item[2]](x)
             ra, rb = a0, b0
@@ -331,6 +347,14 @@ def programs(tier: str, family: str = "c16") -> List[Any]:
                 if not th and pre is not None and post is not None and post.kind == "res":
                     continue
                 specs.append(([s_ for s_ in (pre, pr, post) if s_ is not None], head, False))
+    # residual blocks whose skip tensor is consumed twice inside the branch (a replaced op and a direct, unreplaced one, in both orders)
+    res2 = [Seg("res2", b) for b in (("gelu", "|", "tanh"), ("tanh", "|", "gelu"), ("silu", "sq", "|", "tanh"), ("sq", "|", "relu"), ("ln", "|", "tanh", "sq"))]
+    for r2 in res2:
+        for pre in (None, Seg("lin"), Seg("add_in")):
+            for post, head in ((None, None), (Seg("lin"), "mse")):
+                if not th and pre is not None and post is not None:
+                    continue
+                specs.append(([s_ for s_ in (pre, r2, post) if s_ is not None], head, False))
     if th:
         for a, b, c in itertools.product(res[:6], [Seg("lin"), Seg("add_in"), Seg("gelu")], res[6:12]):
             specs.append(([a, b, c], None, False))
